@@ -342,6 +342,7 @@ class World:
 
     # ------------------------------------------------------- install / remove
     def __enter__(self):
+        _reset_module_state()
         simfs.install()
         simfs.activate(self.fs)
         simfs.pid_provider = self._pid
@@ -1231,6 +1232,36 @@ def on_open_hook(world):
         if raw.path == world.files[ctx.op['f'] % len(world.files)] and raw._r:
             ctx.src_raws.append(raw)
     return f
+
+
+_MODULE_STATE = {}
+
+
+def _reset_module_state():
+    """Runs share a worker process.  Module-level containers of the cache modules (parser_cache and
+    whatever a changed parso adds, e.g. a set of directories it believes to exist) are put back to
+    their import-time content before every run, so that a run depends on its plan only."""
+    import copy as _copy
+    import parso.file_io as pfio
+    for mod in (pc, pfio):
+        for name, val in list(vars(mod).items()):
+            if name.startswith('__') or not isinstance(val, (dict, list, set)):
+                continue
+            key = (mod.__name__, name)
+            if key not in _MODULE_STATE:
+                try:
+                    _MODULE_STATE[key] = _copy.copy(val) if mod is not pc or name != 'parser_cache' else {}
+                except Exception:
+                    continue
+            base = _MODULE_STATE[key]
+            try:
+                if isinstance(val, list):
+                    val[:] = base
+                else:
+                    val.clear()
+                    val.update(base)
+            except Exception:
+                pass
 
 
 _CLASS_BASE = None
